@@ -157,4 +157,75 @@ PLANS = {
         "quick": [{"flavor": "debug", "shards": 4}, {"flavor": "release", "shards": 4}],
         "thorough": BOTH_T,
     },
+
+    "C11": {
+        "level": "exploration",
+        "rule": "(a) tokens returned by real map_to/unmap/update_flags calls on a MappedPageTable (all three sizes): page() = argument "
+                "page; (b) MapperFlush::flush under the trap monitor: exactly one invlpg whose effective address (ModRM + saved "
+                "GPRs) = page start; MapperFlushAll::flush_all / tlb::flush_all: mov r,cr3 then mov cr3,r with the written value = "
+                "the emulated current CR3 (prior contents with and without PCID/PWT/PCD low bits); (c) tlb::flush on boundary-biased "
+                "canonical addresses; (d) flush_pcid: all 4096 PCIDs x 4 kinds exhaustively - register operand = kind, 16 descriptor "
+                "bytes = {pcid, address}, reserved bits zero; (e) InvlpgbFlushBuilder via hook H2: ranges of 4K/2M pages reaching "
+                "and spanning the gap and the top x processor maxima {0,1,2,3,7,255,4095,65535,random} x all option combinations: "
+                "every trapped invlpgb has count <= max, stride bit, option/PCID/ASID fields as requested, address inside the "
+                "range; coverage judged with the architectural reading (count+1 pages), gap crossing with the minimal reading; "
+                "requests <= pages+1. distinct_nontrivial counts distinct (profile, operation, address/CR3/range class, max class, "
+                "option combination) tuples.",
+        "assumptions": COMMON_ASSUME + ["'invalidates exactly that page' means 'executes invlpg with exactly that address'", "whether hardware accepts an invlpgb whose extra (count+1-th) page is non-canonical is not decidable here"],
+        "quick": [{"flavor": "debug", "shards": 4}, {"flavor": "release", "shards": 4}], "thorough": BOTH_T,
+    },
+    "C12": {
+        "level": "exploration",
+        "rule": "independent decoder of the 16-byte gate applied to the RAW BYTES of the table: named fields and Index<u8> (all 256 "
+                "vectors: reference at 16*v or panic per a manual-derived table), every RangeBounds form the crate implements Index "
+                "for plus slice/slice_mut over (thorough) all 65536 (start,end) pairs / (quick) an edge grid + 700 random pairs: "
+                "slice pointer and length or panic (start < 32 or reversed); set_handler_addr on boundary-biased canonical "
+                "addresses through index/slice paths: offset fields = address, selector = CS read by the harness, P=1, type 0xE, "
+                "DPL 0, IST 0, reserved 0, no byte of another vector changed; random option-setter programs vs a shadow of the five "
+                "fields; new/missing/reset = non-present gates; set_handler_fn for all five handler types; load_unsafe -> one trapped "
+                "lidt with limit 4095 and base = table address. distinct_nontrivial counts distinct (profile, access form/class, "
+                "address class, resulting option state) tuples.",
+        "assumptions": COMMON_ASSUME + ["IST indices 0..=6 as the property states"],
+        "quick": [{"flavor": "debug", "shards": 4}, {"flavor": "release", "shards": 4}], "thorough": BOTH_T,
+    },
+    "C14": {
+        "level": "exploration",
+        "rule": "random append histories of arbitrary user/system descriptors (all 64-bit patterns, all DPLs) until the table is full "
+                "and beyond, for MAX in {1,2,3,8,9,8192}, against a shadow Vec<u64>: after each append entries() raw = shadow, "
+                "selector = (first slot << 3) | DPL with TI=0, limit = 8*len-1; an append that does not fit panics and leaves the "
+                "table unchanged; from_raw_entries on slices of length 0..MAX+2 (panic exactly for empty / non-zero first / too "
+                "long); clone; load_unsafe -> one trapped lgdt with (limit(), address of slot 0). distinct_nontrivial counts distinct "
+                "(profile, MAX, descriptor kind, DPL, outcome, free slots at panic) tuples.",
+        "assumptions": COMMON_ASSUME,
+        "quick": [{"flavor": "debug", "shards": 4}, {"flavor": "release", "shards": 4}], "thorough": BOTH_T,
+    },
+    "C15": {
+        "level": "exploration",
+        "rule": "architectural decoder of the 16-byte system descriptor applied to tss_segment_unchecked(p) for walking-one, "
+                "walking-zero, 2^k-1, architectural-edge and boundary-biased random 64-bit pointers (never dereferenced): base = p, "
+                "limit 0x67, type 0b1001, S=0, DPL 0, P=1, AVL/L/DB/G = 0, upper dword of the second word = 0; the six predefined "
+                "descriptors decode to kind/L/D/DPL/P/limit/granularity their names state; dpl() = bits 45-46 for random "
+                "descriptors; TSS and DescriptorTablePointer field offsets by pointer arithmetic and raw little-endian bytes. "
+                "distinct_nontrivial counts distinct (profile, pointer class, upper/lower pointer byte classes, preset, layout item) tuples.",
+        "assumptions": COMMON_ASSUME,
+        "quick": [{"flavor": "debug", "shards": 4}, {"flavor": "release", "shards": 4}], "thorough": BOTH_T,
+    },
+    "C16": {
+        "level": "exploration",
+        "rule": "trap-and-emulate: every mov crN/drN, rdmsr/wrmsr, xsetbv, mov sreg, retfq, ltr, swapgs executed by the real wrappers "
+                "faults in ring 3; the monitor decodes register number (ModRM.reg+REX.R / ECX) and operands (full GPR, EDX:EAX) and "
+                "applies them to an emulated register file. Per wrapper (Cr0/2/3/4, Dr0-3/6/7, XCr0, Msr, Efer, FsBase, GsBase, "
+                "KernelGsBase, Star, LStar, SFMask, UCet, SCet, Pat, ApicBase, segment selectors/bases, load_tss, GS::swap, rflags, "
+                "mxcsr): boundary-biased prior register contents x argument values; event sequence must touch only the named "
+                "register with exactly one write as last access; typed write = (prior & !modelled) | fields, raw write exact, typed "
+                "read = modelled bits, update = read-modify-write, write->read round trips, documented rejections before any write "
+                "event. Instructions that run in ring 3 (xgetbv, mov r,sreg, rd/wr{fs,gs}base, pushfq/popfq, st/ldmxcsr) are compared "
+                "with the harness's own instruction on the real CPU. distinct_nontrivial counts distinct (profile, wrapper, "
+                "prior-content class, argument class) tuples.",
+        "assumptions": COMMON_ASSUME + ["'modelled bits' = the bits the crate's flag type defines (their architectural correctness is C19)",
+                                         "xgetbv/rdfsbase/wrfsbase/pushfq/popfq do not trap: XCR0 prior contents = host value, FS base only re-written with its current value, only the ID flag of RFLAGS is varied",
+                                         "segment set_reg is exercised only with selectors that are guaranteed to fault (beyond the GDT limit / empty LDT)",
+                                         "Cr3::write_raw is given 12-bit values; Star::read is checked on contents whose selector sums do not overflow u16"],
+        "quick": [{"flavor": "debug", "shards": 4}, {"flavor": "release", "shards": 4}], "thorough": BOTH_T,
+    },
 }
